@@ -381,13 +381,9 @@ pub fn run(ctx: &mut Ctx) {
     ];
     for (n, w) in witnesses.iter().enumerate() {
         let c = run_history("witness lru cap=4", LruCacheStorage::new(4), w, &hashes);
-        if ctx.check_case("witness", c, json!({"witness": n})) {
-            return;
-        }
+        ctx.check_case("witness", c, json!({"witness": n}));
         let c = run_history("witness exact-lru cap=1", StrictLru { cap: 1, items: Default::default() }, w, &hashes);
-        if ctx.check_case("witness", c, json!({"witness": n})) {
-            return;
-        }
+        ctx.check_case("witness", c, json!({"witness": n}));
     }
 
     let n = ctx.tier.pick(40_000, 1_000_000);
